@@ -12,7 +12,7 @@ THEOREMS = ["C11_conv_roundtrip", "C11_wrapper_returns_go", "C11_args_all_or_err
 META = {
     "group": "RtConv",
     "technique": "Coq proofs over a Gallina model of the native-call value conversion, the Roman-numeral codec and the base64/sort glue + regenerated list of mirrored functions + differential run of every covered wrapper (ego binary) against the Go function called directly",
-    "text": "Proved: C11_conv_roundtrip (scalars and arrays of int/int16/uint16/int32/int64/bool/byte/float32/float64/string survive Ego->Go->Ego), C11_wrapper_returns_go (a pass-through wrapper returns what Go returns when the result is representable), C11_args_all_or_error (repaired: any unconvertible argument fails the call; C11_args_old_refuted for the old code), C11_multi_return_order, C11_roman_roundtrip (Rtoi(Itor n) = n for all 1..3999), C11_base64_roundtrip, C11_sort_sorted_perm and C11_stable_wrapper_stable (over the Go codec / Go sort laws as Section hypotheses; the stable entries reach only stable Go sort functions by a go/ast table regenerated every run). Every run regenerates the list of IsNative functions from the running package tables (each must be covered by signature or listed as exempt) and compares each covered wrapper through the real ego binary with the Go function called directly on random strings incl. Unicode, boundary numbers, NaN/Inf; Roman numerals exhaustively; base64 and sort laws on the real binary. partial: the Go library functions are trusted; cmplx/os/time/runtime mirrors and slice-taking functions are exempt from the differential run; JSON round trip and fmt verbs are not covered; sort.Stable stability on scalars only through the regenerated table obligation",
+    "text": "Proved: C11_conv_roundtrip (scalars and arrays of int/int16/uint16/int32/int64/bool/byte/float32/float64/string survive Ego->Go->Ego), C11_wrapper_returns_go (a pass-through wrapper returns what Go returns when the result is representable), C11_args_all_or_error (repaired: any unconvertible argument fails the call; C11_args_old_refuted for the old code), C11_multi_return_order, C11_roman_roundtrip (Rtoi(Itor n) = n for all 1..3999), C11_base64_roundtrip, C11_sort_sorted_perm and C11_stable_wrapper_stable (over the Go codec / Go sort laws as Section hypotheses; the stable entries reach only stable Go sort functions by a go/ast table regenerated every run). Every run regenerates the list of IsNative functions from the running package tables (each must be covered by signature or listed as exempt) and compares each covered wrapper through the real ego binary with the Go function called directly on random strings incl. Unicode, boundary numbers, NaN/Inf; Roman numerals exhaustively; base64 and sort laws and JSON output on the real binary. partial: the Go library functions are trusted; cmplx/os/time/runtime mirrors and slice-taking functions are exempt from the differential run; JSON Marshal/MarshalIndent/Unmarshal are compared byte for byte with encoding/json on maps, arrays and scalars (structs, json.Parse and file functions not covered); fmt verbs are not covered; sort.Stable stability on scalars only through the regenerated table obligation",
     "note": "Trusted: Coq kernel; hand-written model of callNative conversions tied by an in-package harness on arrays of every element kind; harness/C11/*.go; props/C11.py generators; the ego binary's fmt.Println/strconv.Quote used to print results.",
 }
 
@@ -166,7 +166,7 @@ def run(ck):
                     elif t == "bool":
                         args.append(("b", rng.choice(["true", "false"])))
                 calls.append((p, n, ins, outs, args))
-    lines, prog = [], ['import "strings"', 'import "strconv"', 'import "math"', 'import "fmt"', 'import "filepath"', 'import "sort"', 'import "base64"', "func main() {"]
+    lines, prog = [], ['import "json"', 'import "strings"', 'import "strconv"', 'import "math"', 'import "fmt"', 'import "filepath"', 'import "sort"', 'import "base64"', "func main() {"]
     for i, (p, n, ins, outs, args) in enumerate(calls):
         lines.append("C %d %s %s %s" % (i, p, n, " ".join("%s:%s" % (t, v.encode().hex()) for t, v in args)))
         ea = []
@@ -247,6 +247,100 @@ def run(ck):
                 lit = ", ".join(str(v) if v >= 0 else "(%d)" % v for v in vals)
             sorts.append((wr, vals))
             prog.append("  try { a := []%s{%s}; sort.%s(a); fmt.Println(\"S\", %d, a) } catch (e) { fmt.Println(\"S\", %d, \"FAILED\", e) }" % (ty, lit, wr, k, k))
+    # JSON: Marshal / MarshalIndent / multi-argument Marshal byte-for-byte against Go's encoding/json on the same value,
+    # Unmarshal + re-Marshal against Go's; strings are built from bytes at run time so that any byte sequence can be used
+    import json as pyjson
+    JSTR = [b"", b"plain", b"a<b", b"x>y", b"q&r", b"</script>", b"<&>", b'say "hi"', b"back\\slash", b"tab\tnl\n", b"\x00\x01\x1f\x7f",
+            "\u2028\u2029".encode(), "h\u00e9llo \u65e5\u672c".encode(), "\U0001F600".encode(), b"\xff", b"a\xc3", b"\xed\xa0\x80", b"/slash/", b"&amp;", b"1 < 2 && 3 > 2"]
+    JKEYS = ["a", "k<", "a&b", "z", "Name", "x>y", "id", "0"]
+    JINTS = [0, 1, -1, 255, 2147483648, 9007199254740993, 9223372036854775807, -9223372036854775807, 1234567890123]
+    JFLTS = ["1.5", "0.1", "1e21", "1e-7", "123456789.125", "1e20", "0.000001", "100.0", "-2.5"]
+
+    def jval(d=0):
+        k = rng.randrange(9 if d < 3 else 5)
+        if k <= 1:
+            return {"t": "s", "v": rng.choice(JSTR).hex()}
+        if k == 2:
+            return {"t": "i", "v": str(rng.choice(JINTS))}
+        if k == 3:
+            return {"t": "f", "v": rng.choice(JFLTS)}
+        if k == 4:
+            return rng.choice([{"t": "b", "v": True}, {"t": "b", "v": False}, {"t": "n"}, {"t": "s", "v": rng.choice(JSTR[2:7]).hex()}])
+        if k in (5, 6):
+            return {"t": "a", "v": [jval(d + 1) for _ in range(rng.randint(0, 4))]}
+        return {"t": "m", "v": {key: jval(d + 1) for key in rng.sample(JKEYS, rng.randint(0, 4))}}
+
+    def jego(v):
+        t = v["t"]
+        if t == "s":
+            b = bytes.fromhex(v["v"])
+            return '""' if not b else "string([]byte{%s})" % ", ".join(str(c) for c in b)
+        if t == "i":
+            return v["v"] if not v["v"].startswith("-") else "(%s)" % v["v"]
+        if t == "f":
+            return {"nan": "(0.0 / 0.0)", "+inf": "math.Inf(1)"}.get(v["v"], v["v"] if not v["v"].startswith("-") else "(%s)" % v["v"])
+        if t == "b":
+            return "true" if v["v"] else "false"
+        if t == "n":
+            return "nil"
+        if t == "a":
+            return "[]any{%s}" % ", ".join(jego(e) for e in v["v"])
+        return "map[string]any{%s}" % ", ".join('"%s": %s' % (k, jego(e)) for k, e in v["v"].items())
+    jcases = []       # (mode, description for the replay, go-side line payload)
+    JBASE = 1000000
+    fixedj = [{"t": "s", "v": b"a<b".hex()}, {"t": "m", "v": {"k<": {"t": "a", "v": [{"t": "s", "v": b"x>y & z".hex()}]}}}, {"t": "f", "v": "nan"},
+              {"t": "a", "v": [{"t": "f", "v": "+inf"}]}, {"t": "s", "v": "\u2028".encode().hex()}, {"t": "s", "v": b"\xff\x00".hex()}]
+    for v in fixedj + [jval() for _ in range(30 if quick else 300)]:
+        k = len(jcases)
+        jcases.append(("M", v))
+        lines.append("J %d M %s" % (JBASE + k, pyjson.dumps(v).encode().hex()))
+        prog.append("  try { b, e := json.Marshal(%s); fmt.Println(\"J\", %d, errs(e), b) } catch (x) { fmt.Println(\"J\", %d, \"PANIC\", x) }" % (jego(v), k, k))
+    for _ in range(10 if quick else 80):
+        v = jval(1) if rng.random() < 0.3 else {"t": rng.choice("am"), "v": None}
+        if v["v"] is None:
+            v = {"t": "a", "v": [jval(1) for _ in range(rng.randint(0, 3))]} if v["t"] == "a" else {"t": "m", "v": {key: jval(1) for key in rng.sample(JKEYS, rng.randint(0, 3))}}
+        pre, ind = rng.choice(["", ">", "  "]), rng.choice(["  ", "\t", "", "--"])
+        k = len(jcases)
+        jcases.append(("I", [v, pre, ind]))
+        lines.append("J %d I %s %s %s" % (JBASE + k, pyjson.dumps(v).encode().hex(), pre.encode().hex() or "-", ind.encode().hex() or "-"))
+        prog.append("  try { b, e := json.MarshalIndent(%s, %s, %s); fmt.Println(\"J\", %d, errs(e), b) } catch (x) { fmt.Println(\"J\", %d, \"PANIC\", x) }" % (
+            jego(v), ego_str(pre), ego_str(ind), k, k))
+    for _ in range(6 if quick else 40):
+        vs = [jval(1) for _ in range(rng.randint(2, 3))]
+        v = {"t": "a", "v": vs}
+        k = len(jcases)
+        jcases.append(("M", v))
+        lines.append("J %d M %s" % (JBASE + k, pyjson.dumps(v).encode().hex()))
+        prog.append("  try { b, e := json.Marshal(%s); fmt.Println(\"J\", %d, errs(e), b) } catch (x) { fmt.Println(\"J\", %d, \"PANIC\", x) }" % (", ".join(jego(e) for e in vs), k, k))
+
+    def plain(v):
+        t = v["t"]
+        if t == "s":
+            return bytes.fromhex(v["v"]).decode("utf8", "replace")
+        if t == "i":
+            return int(v["v"])
+        if t == "f":
+            return float(v["v"]) if v["v"] not in ("nan", "+inf") else 0.5
+        if t in ("b",):
+            return v["v"]
+        if t == "n":
+            return None
+        if t == "a":
+            return [plain(e) for e in v["v"]]
+        return {k2: plain(e) for k2, e in v["v"].items()}
+    utexts = ['{"a": 12345678901234567890, "b": [1.0, 2, "<"], "c": {"d": null, "e": 1e400}}', '{"a": 1234567890123, "b": [1.0, 2, "<&>"], "c": {"d": null, "e": -1e-7}}',
+              '[1, "x", [true], {"k": 2}]', '{"s": "a\\u2028\\ud800<", "t": "\\u003c\\/"}', "{bad", '{"a":1,"a":2}', ' { "w" : [ ] } ', '[1e2, 1E+2, -0, 0.10]', '{"n": 9007199254740993}', "[", '{"a": tru}', '[]', '{}']
+    for _ in range(12 if quick else 100):
+        v = {"t": "m", "v": {key: jval(1) for key in rng.sample(JKEYS, rng.randint(0, 4))}} if rng.random() < 0.6 else {"t": "a", "v": [jval(1) for _ in range(rng.randint(0, 4))]}
+        utexts.append(pyjson.dumps(plain(v), ensure_ascii=rng.random() < 0.5))
+    for txt in utexts:
+        k = len(jcases)
+        tb = txt.encode()
+        jcases.append(("U", txt))
+        lines.append("J %d U %s" % (JBASE + k, tb.hex()))
+        model = "map[string]interface{}{}" if txt.lstrip().startswith("{") else "[]interface{}{}"
+        prog.append("  try { m := %s; e := json.Unmarshal(string([]byte{%s}), &m); b, e2 := json.Marshal(m); if e != nil { fmt.Println(\"J\", %d, \"error\", b) } else { fmt.Println(\"J\", %d, errs(e2), b) } } "
+                    "catch (x) { fmt.Println(\"J\", %d, \"PANIC\", x) }" % (model, ", ".join(str(c) for c in tb), k, k, k))
     prog.append("}")
     prog.append('func errs(e error) string { if e != nil { return "error" }; return "noerr" }')
     prog.insert(prog.index("func main() {"), "type C11P struct { k int; s int }")
@@ -255,6 +349,7 @@ def run(ck):
     rc, eout = vf.sh([ego, "--set", "ego.compiler.extensions=true", "run", src], env=vf.ego_env(ck.work), timeout=900)
     ck.notes.append("t_ego_run=%.1fs" % (time.time() - ck.t0))
     egores, R, RX, RL, B, S = {}, {}, {}, None, {}, {}
+    Jego = {}
     for l in eout.split("\n"):
         f = l.split(" ", 2)
         if l.startswith("# ") and len(f) == 3:
@@ -271,6 +366,8 @@ def run(ck):
             B[int(f[1])] = f[2].strip()
         elif l.startswith("S "):
             S[int(f[1])] = f[2].strip()
+        elif l.startswith("J ") and len(f) == 3:
+            Jego[int(f[1])] = f[2].strip()
     if rc != 0 and len(egores) < len(calls):
         ck.notes.append("ego run ended early (rc=%d): %s" % (rc, eout[-300:].replace("\n", " | ")))
     inp, outp = os.path.join(ck.work, "c.txt"), os.path.join(ck.work, "co.txt")
@@ -350,14 +447,37 @@ def run(ck):
             if bad:
                 found = True
                 ck.violation("sort-law:" + wr.split("-")[0], "sort.%s on %d elements: %s" % (wr, len(vals), bad), replay={"wrapper": wr, "values": vals})
+    json_bad = 0
+    for k, (mode, desc) in enumerate(jcases):
+        g, e = gores.get(JBASE + k), Jego.get(k)
+        if g is None or e is None or g == "baddesc":
+            json_bad += 1
+            continue
+        gofail = g == "err"
+        egofail = e.startswith("error") or e.startswith("PANIC")
+        what = None
+        if gofail != egofail:
+            what = "Go %s, Ego %s" % ("fails" if gofail else "succeeds", "fails" if egofail else "succeeds")
+        elif not gofail:
+            gb = bytes.fromhex(g.split()[1]) if len(g.split()) > 1 else b""
+            eb = bytes(int(x) for x in re.findall(r"[0-9]+", e.split(" ", 1)[1] if " " in e else ""))
+            if gb != eb:
+                what = "Go gives %r, Ego gives %r" % (gb[:120], eb[:120])
+        if what:
+            found = True
+            name = {"M": "Marshal", "I": "MarshalIndent", "U": "Unmarshal"}[mode]
+            ck.violation("json-diverges:" + name, "json.%s on %s: %s" % (name, str(desc)[:200], what), replay={"json": [mode, desc]})
+    if json_bad:
+        ck.violation("json-run-incomplete", "%d of %d JSON cases were not reported by the harness or the Ego program:\n%s" % (json_bad, len(jcases), eout[-400:]),
+                     replay={"log": eout[-2000:]}, found_input=False)
     if table_broken:
         sort_found = any(v["signature"].startswith("sort-law") for v in ck.viol)
         if not sort_found:
             ck.violation("sort-table", table_broken, replay={"table": sort_table}, found_input=False)
-    ck.cov["evaluations"] = len(calls) + rn + len(b64) + len(sorts)
+    ck.cov["evaluations"] = len(calls) + rn + len(b64) + len(sorts) + len(jcases)
     ck.cov["distinct_nontrivial"] = len(nontriv)
     ck.cov["input_distribution"] = {"mirrored_functions_covered": len(funcs), "exempt": sum(len(v) for v in EXEMPT.values()), "calls": len(calls),
-                                    "go_panics": sum(1 for v in gores.values() if v == "PANIC"), "roman": rn, "base64": len(b64), "sort": len(sorts),
+                                    "go_panics": sum(1 for v in gores.values() if v == "PANIC"), "roman": rn, "base64": len(b64), "sort": len(sorts), "json": len(jcases),
                                     "sort_sizes": sorted(set(len(v) for _, v in sorts)), "sort_wrapper_reaches": sort_reach_note}
     for i in list(range(len(calls)))[:4]:
         ck.sample({"call": "%s.%s(%s)" % (calls[i][0], calls[i][1], ", ".join(v for _, v in calls[i][4])), "go": gores.get(i), "ego": egores.get(i)})
